@@ -144,7 +144,7 @@ def reach_states(word: str) -> bool:
 
 
 # ------------------------------------------------------------------------------------------------
-CONF_NAMES = ["prefix", "list", "nested", "amb", "rec", "uni", "open"]
+CONF_NAMES = ["prefix", "list", "nested", "amb", "rec", "uni", "open", "rx1", "rx2", "rxstar", "rxopt"]
 CONF_G = {n: load(n) for n in CONF_NAMES} if os.environ.get("VERIF_CONFORM") else {}
 
 
@@ -171,4 +171,11 @@ CONFORMANCE = [
     ("obs_forest", ["uni", "q\xe9", "<alt>"]),
     ("obs_forest", ["open", "aaab"]),
     ("obs_forest", ["open", "abbb"]),
+    ("obs_forest", ["rx1", "abac"]),
+    ("obs_forest", ["rx1", "c"]),
+    ("obs_forest", ["rx2", "x12y"]),
+    ("obs_forest", ["rx2", "x12b"]),
+    ("obs_forest", ["rxstar", "aabx"]),
+    ("obs_forest", ["rxopt", "xy"]),
+    ("obs_forest", ["rxopt", "x7y"]),
 ]
